@@ -110,14 +110,21 @@ const (
 	kInteger
 	kIntMean
 	kFewDistinct
+	kClustered
 )
 
-var kindNames = []string{"arbitrary-double", "latency-decimal", "integer", "integer-with-integer-mean", "few-distinct"}
+var kindNames = []string{"arbitrary-double", "latency-decimal", "integer", "integer-with-integer-mean", "few-distinct", "clustered-large-mean"}
 
 func genValues(r *hx.Rng, n int, k valueKind) []float64 {
 	vs := make([]float64, n)
+	// clustered: a large base plus small offsets (epoch-like or nanosecond-scale timings), where a
+	// one-pass variance formula loses all its digits
+	base := hx.Pick(r, []float64{1e6, 3e8, 1e9, 1.7e12, 1e15})
+	step := hx.Pick(r, []float64{0.001, 0.5, 1, 3})
 	for i := range vs {
 		switch k {
+		case kClustered:
+			vs[i] = base + step*float64(r.Intn(8))
 		case kArbitrary:
 			vs[i] = finite(r)
 		case kLatency:
@@ -289,7 +296,7 @@ func gen(args []string) {
 		hist := r.Chance(3, 10)
 		head.Tags = aggx.GenTags(r, hist)
 		cnt := genN(r)
-		kind := valueKind(r.Intn(5))
+		kind := valueKind(r.Intn(6))
 		vs := genValues(r, cnt, kind)
 		rates := make([]float64, cnt)
 		one := r.Chance(1, 2)
